@@ -161,13 +161,16 @@ def gatherCopyMask (s : St) (t : Dense) : Res St := do
     if !t.isMasked then pure s else
     let offs := t.offsets
     let vals ← offs.mapM (fun i => s.mget m i)
+    -- `tmp := make([]bool, len(orig))`, gather into tmp, `copy(orig, tmp)`: the whole mask window is
+    -- overwritten, entries behind the gathered ones become false
+    let padded := vals ++ List.replicate (m.len - vals.length) false
     let rec wr (s : St) (j : Nat) : List Bool → Res St
       | [] => .ok s
       | v :: vs => do
         if j ≥ m.len then .ok s else
         let s ← s.mset m j v
         wr s (j + 1) vs
-    wr s 0 vals
+    wr s 0 padded
 
 /-- `(*Dense).Transpose()`: physically move the data of a pending lazy transpose. -/
 def transpose (s : St) (t : Dense) : Res (St × Dense) := do
@@ -178,7 +181,7 @@ def transpose (s : St) (t : Dense) : Res (St × Dense) := do
     let exp := defaultStrides t.ap.o.col t.shape
     let done : Dense := { t with ap := { t.ap with strides := copyPrefix t.ap.strides exp }, old := none, tw := none }
     if isVector t.shape then pure (s, done) else
-    let s ← (if t.dt == "string" then pure s else gatherCopyMask s t)
+    let s ← (if t.dt == "str" then pure s else gatherCopyMask s t)
     let s ← gatherCopy s t
     pure (s, done)
 
